@@ -552,4 +552,39 @@ Proof.
   - exfalso. destruct Hx as (Hx1 & _ & Hx3 & _). exact (Hnc x Hx1 Hx3).
   - right. split; assumption.
 Qed.
+(* the solved times of a run of controls and rules strictly increase (from any state a run can be in, hence also across a pause) *)
+Theorem mixed_times_increasing D' : forall f s tr sf, minv s -> steps f gm D' s = Some (tr, sf) -> StronglySorted Z.lt (map fst tr).
+Proof.
+  induction f as [|f IH]; intros s tr sf Hinv H; pose proof H as H0; cbn [steps] in H; [discriminate|].
+  destruct (mixed_one_step s Hinv) as (e & s' & E & Hinv' & Hp' & _).
+  rewrite E in H. destruct (D' <? st_time s').
+  - injection H as <- <-. cbn [map]. constructor; constructor.
+  - destruct (steps f gm D' s') as [[tr' sf']|] eqn:Es; [|discriminate]. injection H as <- <-. cbn [map].
+    constructor; [exact (IH _ _ _ Hinv' Es)|].
+    destruct (mixed_steps D' _ _ _ _ Hinv' Es) as (_ & Hall & _). rewrite Hp' in Hall.
+    apply Forall_forall. intros x Hx. apply in_map_iff in Hx. destruct Hx as (e0 & <- & He0). destruct (Hall e0 He0) as [_ Hr]. lia.
+Qed.
+Lemma sorted_app_lt (l1 l2 : list Z) (m : Z) : StronglySorted Z.lt l1 -> StronglySorted Z.lt l2 -> (forall x, In x l1 -> x <= m) -> (forall y, In y l2 -> m < y) ->
+  StronglySorted Z.lt (l1 ++ l2).
+Proof.
+  intros H1 H2 Ha Hb. induction l1 as [|x r IH]; [exact H2|]. cbn [app]. inversion H1 as [|? ? Hr Hx]; subst.
+  constructor; [apply IH; [exact Hr|intros y Hy; apply Ha; right; exact Hy]|].
+  apply Forall_forall. intros y Hy. apply in_app_or in Hy. destruct Hy as [Hy|Hy]; [rewrite Forall_forall in Hx; exact (Hx y Hy)|].
+  specialize (Ha x (or_introl eq_refl)). specialize (Hb y Hy). lia.
+Qed.
+(* ... and across a pause: the concatenated solved times of the paused run and of its continuation by a new simulator object strictly increase
+   (no time is revisited) *)
+Theorem mixed_pause_times_increasing D1 D' f1 tr1 s1 f2 tr2 s2 :
+  steps f1 gm D1 (init_state gm) = Some (tr1, s1) -> steps f2 gm D' (restart_state gm s1) = Some (tr2, s2) ->
+  StronglySorted Z.lt (map fst (tr1 ++ tr2)).
+Proof.
+  intros H1 H2. destruct (mixed_steps D1 _ _ _ _ minv_init H1) as (Hs1 & Hall1 & _).
+  pose proof (restart_minv s1 Hs1 (steps_first_false gm D1 _ _ _ _ H1)) as ER. rewrite ER in H2.
+  destruct (mixed_steps D' _ _ _ _ Hs1 H2) as (_ & Hall2 & _).
+  rewrite map_app. apply (sorted_app_lt _ _ (s_prev s1)).
+  - exact (mixed_times_increasing D1 _ _ _ _ minv_init H1).
+  - exact (mixed_times_increasing D' _ _ _ _ Hs1 H2).
+  - intros x Hx. apply in_map_iff in Hx. destruct Hx as (e & <- & He). destruct (Hall1 e He) as [_ Hr]. lia.
+  - intros y Hy. apply in_map_iff in Hy. destruct Hy as (e & <- & He). destruct (Hall2 e He) as [_ Hr]. lia.
+Qed.
 End Mixed.
